@@ -1081,6 +1081,40 @@ func subOpWritable(f Fields) string {
 	if !ok {
 		return "panic"
 	}
+	// With an `order` field the outcome is that of the run whose glyph order is the given one:
+	// whether a CFF encoding can be written depends on where the appended extras land, i.e. on
+	// the map iteration order (seed 7 thorough: glyphs=0,6, extras 2 (encoded) and 8 (not encoded)
+	// in either order).
+	if want, has := f["order"]; has && want != "-" {
+		start := time.Now()
+		for try := 0; try < subMaxTries; try++ {
+			var b *subBuilt
+			var res *sfnt.Font
+			out := guard(func() string {
+				b = subBuild(sf)
+				res = b.font.Subset(glyphs)
+				return ""
+			})
+			if out != "" {
+				return "panic"
+			}
+			var order string
+			out = guard(func() string {
+				order, _ = subRender(b, res)
+				return ""
+			})
+			if out != "" {
+				return "render-" + out
+			}
+			if order == want {
+				return canonPanic(guard(func() string { return subWriteRead(res) }))
+			}
+			if try%16 == 15 && time.Since(start) > subMaxSearch {
+				break
+			}
+		}
+		return "order-not-reproduced"
+	}
 	once := func() string {
 		return canonPanic(guard(func() string {
 			res := subBuild(sf).font.Subset(glyphs)
@@ -1764,11 +1798,76 @@ func subPickOrder(sf *subFont, list []int, hist map[string]int) (status, order, 
 	}
 }
 
+// subGenEncFamily draws a simple CFF font with a built-in encoding in which a requested glyph
+// carries two codes that interleave with the codes of other retained glyphs, and a GSUB 1.1
+// subtable that appends two extras — one encoded, one not — in map-iteration order, so that
+// whether the subset's encoding can be written depends on the order; the multiply-encoded glyph
+// is requested first or last.
+func subGenEncFamily(r *Rng) (*subFont, []int) {
+	n := r.Range(9, 14)
+	m := n - 3 // glyphs 1..m carry codes, m+1..n-1 do not
+	sf := &subFont{kind: "cff", n: n, np: 1, cmapNil: r.Bool(), cidNil: true}
+	names := subPerm(r, n+5)
+	for i := 0; i < n; i++ {
+		sf.w = append(sf.w, r.Intn(2001))
+		sf.fd = append(sf.fd, 0)
+		if i == 0 {
+			sf.nm = append(sf.nm, 0)
+		} else {
+			sf.nm = append(sf.nm, names[i]+1)
+		}
+	}
+	base := r.Range(32, 120)
+	for g := 1; g <= m; g++ {
+		sf.enc = append(sf.enc, [2]int{base + 2*g, g})
+	}
+	// requested: a (two codes), x and x2 = m; extras: y = x+d (encoded), z = m+d (not encoded)
+	d := r.Range(1, 2)
+	x := r.Range(1, m-d-2)
+	y := x + d
+	a := x + d + 1 // distinct from x, y; a < m
+	if a >= m {
+		a = m - 1
+	}
+	if a == y {
+		a = y + 1
+	}
+	b := r.Range(1, m) // the second code of a sits between the codes of b and b+1
+	sf.enc = append(sf.enc, [2]int{base + 2*b + 1, a})
+	if r.Bool() {
+		sf.enc = append(sf.enc, [2]int{base - 1 - r.Intn(20), a})
+	}
+	sort.Slice(sf.enc, func(i, j int) bool { return sf.enc[i][0] < sf.enc[j][0] })
+	sf.gsub = &subLayout{
+		feats:   [][]int{{0}},
+		lookups: [][]subSt{{{typ: 's', delta: d, cov: []int{x, m}}}},
+	}
+	rest := []int{x, m}
+	if r.Bool() {
+		rest[0], rest[1] = rest[1], rest[0]
+	}
+	list := []int{0}
+	if a == x || a == m || a == y {
+		list = append(list, rest...)
+	} else if r.Bool() {
+		list = append(append(list, a), rest...)
+	} else {
+		list = append(append(list, rest...), a)
+	}
+	return sf, list
+}
+
 func areaSubset(c *Ctx) {
 	r := c.Rng
 	for i := 0; i < c.N; i++ {
 		sf, depth, gsubFree := subGenFont(c)
 		list := subGenList(c, sf)
+		if i%16 == 4 {
+			// family: multiply-encoded retained glyph + extras whose order decides writability
+			sf, list = subGenEncFamily(r)
+			depth, gsubFree = 0, false
+			c.Stat("family", "enc-multi-code+order-dependent-extras")
+		}
 		fontArgs := subFontArgs(sf)
 
 		// Map iteration makes the order of the appended glyphs random.  The handler has to
@@ -1832,7 +1931,7 @@ func areaSubset(c *Ctx) {
 		}
 		// (a CID-keyed font without GIDToCID cannot be written: cff.Write panics in encodeCharset)
 		if i%4 == 0 && !(sf.kind == "cid" && sf.cidNil) {
-			wr := c.Case(Verdict, "subset.writable", fontArgs+glyphsArg, true)
+			wr := c.Case(Verdict, "subset.writable", fontArgs+glyphsArg+" order="+order, true)
 			c.Stat("writable_outcome", subClass(wr))
 			if sf.kind == "cff" && !sf.encNil {
 				c.Stat("writable_cff_enc", subClass(wr))
